@@ -778,8 +778,11 @@ func init() {
 		old(c)
 		c19authorizeFirst(c)
 		c19lostGrantUpdate(c)
+		c19lostDenial(c)
+		c19revokeClearsBits(c)
 	}
-	All["C19"].Rules += " R9 R10"
+	All["C19"].Rules += " R9 R10 R11 R12"
+	addLevel("C19", "in the HTTP and statement-execution packages no error is stored into an if-scoped variable that shadows the function's own error (a denial that is answered with 403 but returned as nil lets the caller carry on); REVOKE of a single privilege stores the held privileges with the revoked bits cleared.")
 }
 
 // c19authorizeFirst — C19.R9.  A write handler that authorises the user against the target
@@ -938,4 +941,69 @@ func c19lostGrantUpdate(c *an.Ctx) {
 	}
 	r.AddSites(n)
 	r.Floor(1, "privilege update sites")
+}
+
+// c19lostDenial — C19.R11.  Authorisation helpers report a denial to their caller through their
+// error result; `if err := Authorize(…); err != nil { err = errno.New(…) }` stores the denial into
+// the if-scoped err, the function's own err stays nil, and the caller — which only looks at the
+// returned error — goes on to perform the action after the 403 has been written.
+func c19lostDenial(c *an.Ctx) {
+	r := c.Rule("C19.R11", "K-ERRFLOW", "httpd / statement execution / auth: no store into an if-scoped variable that shadows an outer variable of the same name and is never read again")
+	n := 0
+	for _, d := range c.P.AllDecls() {
+		if !an.InPkg(d, "lib/util/lifted/influx/httpd", "lib/util/lifted/influx/coordinator", "lib/util/lifted/influx/httpd/auth", "lib/util/lifted/influx/meta") {
+			continue
+		}
+		n++
+		for _, st := range an.LostShadowStores(d) {
+			r.Fail(d.Name()+": store into a shadowing variable", c.P.Pos(st.Pos()), "%s assigns to a variable declared in the enclosing `if … :=` that shadows an outer variable of the same name, and never reads it again: the value (an authorisation failure?) is lost when the if ends", d.Name())
+		}
+	}
+	r.AddSites(n)
+	r.Floor(500, "functions scanned")
+}
+
+// c19revokeClearsBits — C19.R12.  Privileges are bit sets (READ|WRITE = ALL).  REVOKE READ from a
+// user holding ALL must leave WRITE: the new value is held &^ revoked.  An equality shortcut
+// ("the user does not hold exactly that privilege, nothing to do") keeps ALL.
+func c19revokeClearsBits(c *an.Ctx) {
+	const CO = "lib/util/lifted/influx/coordinator"
+	r := c.Rule("C19.R12", "K-CONTRACT", CO+":(*StatementExecutor).executeRevokeStatement — the stored privilege is NoPrivileges only for REVOKE ALL, otherwise held &^ revoked; every path stores")
+	f := fn(r, CO+":StatementExecutor.executeRevokeStatement")
+	if f == nil {
+		return
+	}
+	set := f.Find(an.MNode("MetaClient.SetPrivilege(user, db, priv)", func(g *an.Fn, m ast.Node) bool {
+		ce, ok := m.(*ast.CallExpr)
+		if !ok || len(ce.Args) != 3 {
+			return false
+		}
+		sel, ok := ce.Fun.(*ast.SelectorExpr)
+		return ok && sel.Sel.Name == "SetPrivilege"
+	}))
+	r.AddSites(set.Len())
+	if set.Len() == 0 {
+		r.Fail(f.Name+": no store", c.P.Pos(f.Body.Pos()), "executeRevokeStatement never stores a privilege")
+		return
+	}
+	hasClear := false
+	ast.Inspect(f.Body, func(m ast.Node) bool {
+		if be, ok := m.(*ast.BinaryExpr); ok && be.Op.String() == "&^" {
+			hasClear = true
+		}
+		if as, ok := m.(*ast.AssignStmt); ok && as.Tok.String() == "&^=" {
+			hasClear = true
+		}
+		return true
+	})
+	if !hasClear {
+		r.Fail(f.Name+": no bit clear", c.P.Pos(f.Body.Pos()), "the revoked privilege is no longer cleared from the held privileges with &^")
+	}
+	// a successful return that stores nothing is allowed only … never: REVOKE always writes the result
+	nilRets := f.Find(an.MReturn("nil without storing", func(g *an.Fn, rs *ast.ReturnStmt) bool {
+		return len(rs.Results) == 1 && an.IsNilIdent(g.Info, rs.Results[0])
+	}))
+	if nilRets.Len() > 0 {
+		r.Fail(f.Name+": revoke without store", c.P.Pos(nilRets.List[0].Node.Pos()), "executeRevokeStatement reports success on a path that never calls SetPrivilege")
+	}
 }
